@@ -223,7 +223,10 @@ func genConform(t *rapid.T, m *Model) (doc string, multiRule bool, patternEl boo
 		}
 		txt := rapid.SampledFrom([]string{"text", "a&b", "1 < 2", "plain", "q\"uote's", "é😀"}).Draw(t, "tx")
 		if rawTextEls[ce.name] && ce.name != "title" && ce.name != "textarea" {
-			txt = "plain"
+			// the content of xmp, iframe, noembed, noframes, noscript is raw text: what stands there is
+			// what is shown, character references are not decoded (known finding D66 when it holds one
+			// of & < > " ')
+			txt = rapid.SampledFrom([]string{"plain", "plain", "a & b", "1 < 2", "<b>x</b>", "it's \"q\""}).Draw(t, "rawtx")
 		}
 		toks = append(toks, html.Token{Type: html.TextToken, Data: txt})
 		if rawTextEls[ce.name] || rapid.Bool().Draw(t, "close") {
@@ -236,8 +239,14 @@ func genConform(t *rapid.T, m *Model) (doc string, multiRule bool, patternEl boo
 		toks = append(toks, html.Token{Type: html.EndTagToken, Data: open[i]})
 	}
 	var sb strings.Builder
+	rawOpen := false
 	for _, tk := range toks {
-		sb.WriteString(tk.String())
+		if tk.Type == html.TextToken && rawOpen {
+			sb.WriteString(tk.Data) // raw text is written as it is
+		} else {
+			sb.WriteString(tk.String())
+		}
+		rawOpen = tk.Type == html.StartTagToken && rawTextEls[tk.Data] && tk.Data != "title" && tk.Data != "textarea"
 	}
 	doc = sb.String()
 	return doc, multiRule, patternEl, strings.TrimSpace(doc) != ""
@@ -376,6 +385,20 @@ func genC07(t *rapid.T) *Case {
 	return c
 }
 
+// hasMarkupCharsInRawText: does the document hold a raw-text element (not RCDATA) whose text
+// contains one of & < > " ' ?
+func hasMarkupCharsInRawText(doc string) bool {
+	toks := tokenize(doc)
+	for i, t := range toks {
+		if t.Type == html.StartTagToken && rawTextEls[t.Name] && t.Name != "title" && t.Name != "textarea" && i+1 < len(toks) && toks[i+1].Type == html.TextToken {
+			if strings.ContainsAny(toks[i+1].Raw, "&<>\"'") {
+				return true
+			}
+		}
+	}
+	return false
+}
+
 func checkC07(c *Case, r *Rec) error {
 	if c.Kind == "empty-vocabulary" || strings.TrimSpace(string(c.Input)) == "" {
 		r.Class("empty_vocabulary_or_document")
@@ -386,6 +409,14 @@ func checkC07(c *Case, r *Rec) error {
 	out, _ := sanitizeStaged(c.Spec, in, stageOf(c, 2))
 	if stageOf(c, 2) >= 0 {
 		r.Class("policy_extended_after_first_use")
+	}
+	if c.Kind != "strict-replay" && hasMarkupCharsInRawText(in) && knownClassEnabled("C07", "markup_characters_inside_an_allowed_raw_text_element") {
+		// known finding D66: the text of an allowed xmp / iframe / noembed / noframes / noscript is
+		// written escaped although it is raw text for whoever reads the output
+		if affected, err := sameModuloForced(m, in, out); err != nil || (!affected && out != in) {
+			r.Excluded("markup_characters_inside_an_allowed_raw_text_element")
+			return nil
+		}
 	}
 	if c.Kind != "strict-replay" && hasEmptyFragmentURL(in) && knownClassEnabled("C07", "url_with_empty_fragment") {
 		if affected, err := sameModuloForced(m, in, out); err != nil || (!affected && out != in) {
